@@ -55,6 +55,7 @@ KStr = KPrim('Str', S)
 # Names: atoms (Int-backed).  0 encodes None; valid names are > 0 (non-empty).
 KBits = KPrim('Bits', z3.BitVecSort(64))
 KName = KPrim('Name', I)
+KAny = KPrim('Any', I)                # an opaque token for a value of any type (equal values => equal tokens)
 KCallable = KPrim('Callable', I)      # opaque callback (calling it has no modelled effect)
 KNameOpt = KPrim('Name', I, nullable=True)
 
@@ -201,7 +202,7 @@ def is_refkind(k):
 def parse_kind(text, classes=(), enums=()):
     """Parse 'Dict[Name,Ref[Application]]' style kind strings."""
     text = text.strip()
-    prim = {'Callable': KCallable, 'Bits': KBits, 'Int': KInt, 'Real': KReal, 'Bool': KBool, 'Str': KStr,
+    prim = {'Any': KAny, 'Callable': KCallable, 'Bits': KBits, 'Int': KInt, 'Real': KReal, 'Bool': KBool, 'Str': KStr,
             'Name': KName, 'Vec': KVec3, 'Ext': KExtReal}
     if text in prim:
         return prim[text]
@@ -250,7 +251,10 @@ def parse_kind(text, classes=(), enums=()):
         return KDict(sub[0], sub[1])
     if head == 'DefaultDict':
         k = KDict(sub[0], sub[1])
-        k.default_cls = sub[1].cls       # collections.defaultdict(Cls): a missing key constructs Cls()
+        if isinstance(sub[1], KRef):
+            k.default_cls = sub[1].cls   # collections.defaultdict(Cls): a missing key constructs Cls()
+        else:
+            k.default_cls = '$value'     # collections.defaultdict(dict/list/set): a missing key gets the empty value
         return k
     if head == 'Set':
         return KSet(sub[0])
